@@ -98,3 +98,59 @@ impl LuaIndex for LuaOperatorIndex {
         self.in_filed_operator_map.clear();
     }
 }
+
+#[cfg(feature = "verif-hooks")]
+impl LuaOperatorIndex {
+    pub(crate) fn verif_sizes(&self) -> Vec<(&'static str, usize)> {
+        vec![
+            ("operators", self.operators.len()),
+            ("type_operators_map", self.type_operators_map.len()),
+            (
+                "type_operators_map.ids",
+                self.type_operators_map
+                    .values()
+                    .map(|m| m.values().map(|v| v.len()).sum::<usize>())
+                    .sum(),
+            ),
+            ("in_filed_operator_map", self.in_filed_operator_map.len()),
+            (
+                "in_filed_operator_map.ids",
+                self.in_filed_operator_map.values().map(|v| v.len()).sum(),
+            ),
+        ]
+    }
+
+    pub(crate) fn verif_file_refs(&self, file_id: FileId) -> Vec<(&'static str, usize)> {
+        vec![
+            (
+                "operators",
+                self.operators
+                    .keys()
+                    .filter(|id| id.file_id == file_id)
+                    .count(),
+            ),
+            (
+                "type_operators_map.table_owners",
+                self.type_operators_map
+                    .keys()
+                    .filter(|o| matches!(o, LuaOperatorOwner::Table(t) if t.file_id == file_id))
+                    .count(),
+            ),
+            (
+                "type_operators_map.ids",
+                self.type_operators_map
+                    .values()
+                    .map(|m| {
+                        m.values()
+                            .map(|v| v.iter().filter(|id| id.file_id == file_id).count())
+                            .sum::<usize>()
+                    })
+                    .sum(),
+            ),
+            (
+                "in_filed_operator_map",
+                self.in_filed_operator_map.contains_key(&file_id) as usize,
+            ),
+        ]
+    }
+}
